@@ -51,6 +51,8 @@ structure Obj where
   proto : Option Nat
   props : List (String × Pty)
   val : OVal := .none
+  accs : List (String × String) := []   -- own accessor properties (propertyGetSet values in otto's property map), name ↦
+                                        -- tag of the harness's logging getter/setter pair; mode 0o001 (configurable only)
 
 /-- stash.go:120 dclProperty -/
 structure DclProp where
@@ -83,6 +85,7 @@ structure St where
 inductive Ref where
   | prop (base : Option Nat) (name : String)
   | stash (base : Nat) (name : String)
+  | pprop (base : Nat) (name : String) (primitive : V)   -- type_reference.go:17: base = the wrapper of a primitive base value
 
 /-- a Value that may be a reference (valueReference) -/
 inductive MV where
@@ -310,6 +313,46 @@ def hasProperty (a : Nat) (name : String) : M Bool := do
   let p ← getProperty (← chainFuel) a name
   pure p.isSome
 
+/-- the accessor property that [[GetProperty]] (object_class.go:199 objectGetProperty) reaches first on the chain from
+    `a`, if it reaches an accessor before a data property -/
+def findAcc : Nat → Nat → String → M (Option String)
+  | 0, _, _ => pure none
+  | n+1, a, name => do
+    let own ← getOwnProperty a name
+    if own.isSome then pure none
+    else do
+      let σ ← getSt
+      match σ.obj? a with
+      | none => pure none
+      | some o =>
+        match lookupA name o.accs with
+        | some t => pure (some t)
+        | none => (match o.proto with
+          | some q => findAcc n q name
+          | none => pure none)
+
+/-- what the harness's accessor functions log of their this value: Object.prototype.toString's class, and for a
+    wrapper the primitive inside (the reference's `primitive`, from which the wrapper was made in the same step) -/
+def recvTok (a : Nat) (primitive : Option V) : M String := do
+  let σ ← getSt
+  let cls := match σ.obj? a with | some o => o.cls | none => "?"
+  pure (match primitive with
+    | some v => cls ++ ":" ++ toStr v
+    | none => cls)
+
+/-- property.go:81 property.get on a propertyGetSet: the getter is called with this = the base object -/
+def accGet (t : String) (a : Nat) (primitive : Option V) : M V := do
+  let r ← recvTok a primitive
+  modifySt fun σ => { σ with trace := σ.trace ++ ["sG" ++ t ++ ":" ++ r] }
+  pure (.str ("v" ++ t))
+
+/-- objectClass.get with accessors: objectGet → property.get -/
+def objGetA (a : Nat) (name : String) (primitive : Option V) : M V := do
+  let acc ← findAcc (← chainFuel) a name
+  match acc with
+  | some t => accGet t a primitive
+  | none => objGet a name
+
 /-- object_class.go:232 objectCanPutDetails (data properties, extensible objects): (canPut, own property) -/
 def canPutDetails (a : Nat) (name : String) : M (Bool × Option Pty) := do
   let own ← getOwnProperty a name
@@ -512,26 +555,84 @@ def getIdentifierReference : Nat → Option Nat → String → M Ref
 
 def stashFuel : M Nat := fun σ => .ok (σ.stashes.length + 1) σ
 
+/-- what the harness's setter logs of its argument: numbers and strings by value, anything else by its typeof -/
+def accValTok (σ : St) (v : V) : String :=
+  match v with
+  | .num n => "n" ++ toString n
+  | .nan => "nan"
+  | .str s => "s" ++ s
+  | .undef => "undefined" | .null => "object" | .bool _ => "boolean"
+  | .ref _ => if isCall σ v then "function" else "object"
+
+/-- object_class.go:262 objectPut, the setter branch: `setter.call(toValue(obj), value)` -/
+def accSet (t : String) (a : Nat) (primitive : Option V) (value : V) : M Unit := do
+  let r ← recvTok a primitive
+  modifySt fun σ => { σ with trace := σ.trace ++ ["sS" ++ t ++ ":" ++ r ++ ":" ++ accValTok σ value] }
+
+/-- objectClass.put with accessors: an accessor that [[GetProperty]] reaches first has its setter called (8.12.5
+    step 5), otherwise objectPut's data path -/
+def objPutA (a : Nat) (name : String) (value : V) (primitive : Option V) : M Unit := do
+  let acc ← findAcc (← chainFuel) a name
+  match acc with
+  | some t => accSet t a primitive value
+  | none => objPut a name value false
+
+/-- objectClass.delete with accessors: an own accessor property is configurable (mode 0o001) -/
+def objDeleteA (a : Nat) (name : String) : M Bool := do
+  let σ ← getSt
+  match σ.obj? a with
+  | some o =>
+    (match lookupA name o.accs with
+     | some _ => do setObj a { o with accs := removeA name o.accs }; pure true
+     | none => objDelete a name false)
+  | none => objDelete a name false
+
+/-- Object.defineProperty with the harness's accessor descriptor {get, set, enumerable: false, configurable: true}
+    (object_class.go:320 objectDefineOwnProperty, accessor cases; type_arguments.go:80 for a mapped index) -/
+def defineAccessor (a : Nat) (name : String) (t : String) : M Unit := do
+  let σ ← getSt
+  match σ.obj? a with
+  | none => pure ()
+  | some o =>
+    match lookupA name o.props with
+    | some p =>
+      -- data → accessor needs a configurable property (:372); the descriptor asks for configurable: true (:355)
+      if !p.c then throwErr "TypeError"
+      else setObj a { o with props := removeA name o.props, val := unmapIndex o.val name, accs := removeA name o.accs ++ [(name, t)] }
+    | none => setObj a { o with accs := removeA name o.accs ++ [(name, t)] }
+
+/-- a data descriptor over an own accessor property (configurable): the accessor goes (:370) -/
+def dropAccessor (a : Nat) (name : String) : M Unit := do
+  let σ ← getSt
+  match σ.obj? a with
+  | some o => (match lookupA name o.accs with
+    | some _ => setObj a { o with accs := removeA name o.accs }
+    | none => pure ())
+  | none => pure ()
+
 /-- getValue: propertyReference (33), stashReference (66; strict = false) -/
 def refGetValue (r : Ref) : M V :=
   match r with
   | .prop none _ => throwErr "ReferenceError"
-  | .prop (some b) name => objGet b name
+  | .prop (some b) name => objGetA b name none
   | .stash b name => getBinding b name false
+  | .pprop b name primitive => objGetA b name (some primitive)
 
 /-- putValue: propertyReference (40), stashReference (70); the result is the name of an unresolvable reference -/
 def refPutValue (r : Ref) (value : V) : M String :=
   match r with
   | .prop none name => pure name
-  | .prop (some b) name => do objPut b name value false; pure ""
+  | .prop (some b) name => do objPutA b name value none; pure ""
   | .stash b name => do setValue b name value false; pure ""
+  | .pprop b name primitive => do objPutA b name value (some primitive); pure ""
 
 /-- delete: propertyReference (48), stashReference (75) -/
 def refDelete (r : Ref) : M Bool :=
   match r with
   | .prop none _ => pure true
-  | .prop (some b) name => objDelete b name false
+  | .prop (some b) name => objDeleteA b name
   | .stash b name => deleteBinding b name
+  | .pprop b name _ => objDeleteA b name
 
 /-- runtime.go:109 rt.putValue -/
 def rtPutValue (r : Ref) (value : V) : M Unit := do
@@ -847,14 +948,17 @@ def evalE : Nat → FE → M MV
       let target ← evalE n o
       let targetValue ← resolve target
       let obj ← objectCoerce targetValue
-      pure (.ref (.prop (some obj) p))
+      -- :274 `if !targetValue.IsObject() { ref.primitive = &targetValue }`
+      pure (.ref (match targetValue with | .ref _ => .prop (some obj) p | _ => .pprop obj p targetValue))
     | .getE o k => do                                                                -- :163 bracket expression
       let target ← evalE n o
       let targetValue ← resolve target
       let member ← evalE n k
       let memberValue ← resolve member
       let obj ← objectCoerce targetValue
-      pure (.ref (.prop (some obj) (toStr memberValue)))
+      pure (.ref (match targetValue with
+        | .ref _ => .prop (some obj) (toStr memberValue)
+        | _ => .pprop obj (toStr memberValue) targetValue))
     | .set o p e1 => do                                                              -- :116 (left = dot)
       let left ← evalE n (.get o p)
       let right ← evalE n e1
@@ -890,7 +994,8 @@ def evalE : Nat → FE → M MV
       let vl ← resolve callee                        -- 11.2.3 step 2: GetValue of the callee, before the arguments
       let argumentList ← evalArgs n args
       let this : V := match callee with
-        | .ref (.prop (some b) _) => .ref b          -- this = objectValue(rf.base)
+        | .ref (.prop (some b) _) => .ref b          -- this = rf.thisValue() = objectValue(rf.base)
+        | .ref (.pprop _ _ primitive) => primitive   -- … or the primitive base itself (type_reference.go:24)
         | _ => .undef                                -- stashReference, plain value
       let σ ← getSt
       if !isFunction σ vl then throwErr "TypeError"
@@ -903,6 +1008,7 @@ def evalE : Nat → FE → M MV
       let argumentList ← evalArgs n args
       let this : V := match callee with
         | .ref (.prop (some b) _) => .ref b
+        | .ref (.pprop _ _ primitive) => primitive
         | _ => .undef
       let σ ← getSt
       if !isFunction σ vl then throwErr "TypeError"
@@ -952,6 +1058,28 @@ def evalE : Nat → FE → M MV
       let tv ← resolve test
       if truthy tv then do let v ← resolve (← evalE n a); pure (.val v)
       else do let v ← resolve (← evalE n b); pure (.val v)
+    | .wproto k =>
+      pure (.val (.ref (if k = "String" then strProto else if k = "Number" then numProto else if k = "Boolean" then boolProto else objProto)))
+    | .defAcc o p t => do                                                            -- builtin_object.go:119
+      let ov ← resolve (← evalE n o)
+      (match ov with
+       | .ref a => do defineAccessor a p t; pure (.val ov)
+       | _ => throwErr "TypeError")
+    | .opSet o p e1 => do                                                            -- :118 assign expression, operator +=
+      let left ← evalE n (.get o p)
+      let leftValue ← resolve left                   -- :123 the old value is read before the right-hand side
+      let right ← evalE n e1
+      let rightValue ← resolve right
+      let result := binAdd leftValue rightValue
+      (match left with | .ref r => rtPutValue r result | .val _ => pure ())
+      pure (.val result)
+    | .incr o p => do                                                                -- :395 postfix ++
+      let target ← evalE n (.get o p)
+      let targetValue ← resolve target
+      let oldValue := binSub targetValue (.num 0)    -- targetValue.float64()
+      let newValue := binAdd oldValue (.num 1)
+      (match target with | .ref r => rtPutValue r newValue | .val _ => pure ())
+      pure (.val oldValue)
     | .protoOf e1 => do                                                              -- builtin_object.go builtinObjectGetPrototypeOf
       let v ← resolve (← evalE n e1)
       (match v with
@@ -1000,19 +1128,19 @@ def evalE : Nat → FE → M MV
       let ov ← resolve (← evalE n o)
       let v ← resolve (← evalE n e1)
       (match ov with
-       | .ref a => do let _ ← defineOwnProperty a p (p101 v) true; pure (.val ov)
+       | .ref a => do dropAccessor a p; let _ ← defineOwnProperty a p (p101 v) true; pure (.val ov)
        | _ => throwErr "TypeError")
     | .defFix o p e1 => do                                                           -- builtin_object.go:119
       let ov ← resolve (← evalE n o)
       let v ← resolve (← evalE n e1)
       (match ov with
-       | .ref a => do let _ ← defineOwnProperty a p (p000 v) true; pure (.val ov)
+       | .ref a => do dropAccessor a p; let _ ← defineOwnProperty a p (p000 v) true; pure (.val ov)
        | _ => throwErr "TypeError")
     | .defRO o p e1 => do                                                            -- builtin_object.go:119
       let ov ← resolve (← evalE n o)
       let v ← resolve (← evalE n e1)
       (match ov with
-       | .ref a => do let _ ← defineOwnProperty a p { value := v, w := false, e := true, c := true } true; pure (.val ov)
+       | .ref a => do dropAccessor a p; let _ ← defineOwnProperty a p { value := v, w := false, e := true, c := true } true; pure (.val ov)
        | _ => throwErr "TypeError")
     | .evalD vs ds body =>                                                           -- builtin.go:17, call.eval = true
       -- type_function.go:169–172: a direct call enters no scope
